@@ -1,14 +1,22 @@
 #!/bin/bash
-# Re-runs every kept seeded change against the current checks (property's own
-# quick check, seed 0), 4 at a time, without the repository suite.
+# Re-runs every kept seeded change against the checks as committed now (a
+# snapshot worktree of /verif HEAD, so /verif can be edited meanwhile), with
+# the properties recorded in its meta.json, quick tier, seed 0, 4 at a time,
+# without the repository suite.
 # usage: ./tools_reverify_seeded.sh [outfile]
 out=${1:-/tmp/reverify_seeded.txt}
 : > "$out"
+snap=$(mktemp -d /tmp/verif-snap-XXXX); rmdir "$snap"
+git -C /verif worktree add -q --detach "$snap" HEAD || exit 2
+ln -s /verif/.deps "$snap/.deps"
+export VERIF_CHECK_DIR="$snap"
 cd /verif
-ls seeded | xargs -P 4 -I{} sh -c '
-  id={}; p=${id%%-*}
-  r=$(./tools_seeded.py seeded/$id --props $p --skip-tests 2>/dev/null | /venv/bin/python -c "import json,sys; d=json.load(sys.stdin); print(d.get(\"detected_by\"), d.get(\"demo_without_patch\"), d.get(\"demo_with_patch\"), d.get(\"apply_failed\",\"\")[:80])")
+ls seeded | grep '^C' | xargs -P 4 -I{} sh -c '
+  id={}
+  props=$(/venv/bin/python -c "import json,sys; c=json.load(open(\"seeded/$id/meta.json\"))[\"command\"]; print(c.split(\"--props\")[1].split()[0])")
+  r=$(./tools_seeded.py seeded/$id --props $props --skip-tests 2>/dev/null | /venv/bin/python -c "import json,sys; d=json.load(sys.stdin); print(d.get(\"detected_by\"), d.get(\"demo_without_patch\"), d.get(\"demo_with_patch\"), d.get(\"apply_failed\",\"\")[:80])")
   echo "$id $r" >> '"$out"'
 '
+git -C /verif worktree remove --force "$snap"
 sort "$out" -o "$out"
-grep -c "\[.C" "$out"
+echo "detected: $(grep -c "\[.C" "$out") of $(wc -l < "$out")"
